@@ -118,6 +118,9 @@ func (b *CCFeedbackReport) Header() Header {
 
 // Marshal encodes the Congestion Control Feedback Report in binary
 func (b CCFeedbackReport) Marshal() ([]byte, error) {
+	if b.MarshalSize() > maxPacketLength {
+		return nil, errPacketTooLong
+	}
 	header := b.Header()
 	headerBuf, err := header.Marshal()
 	if err != nil {
